@@ -100,8 +100,12 @@ def _list_routes(argv, extract_route):
     for line in p.stdout:
         if not line.strip():
             continue
-        ipw, mask = extract_route(line.decode("ASCII"))
-        if not ipw:
+        try:
+            ipw, mask = extract_route(line.decode("ASCII"))
+        except (ValueError, OSError, IndexError):
+            # not a line we can interpret as a route: skip it
+            continue
+        if not ipw or mask < 0:
             continue
         width = min(ipw[1], mask)
         ip = ipw[0] & _shl(_shl(1, width) - 1, 32 - width)
